@@ -12,7 +12,11 @@ RULE = ("(utmi) the real UTMITranslator with a behavioural PHY producing DIR-hig
         "grammar (start by DIR+NXT or by RxCmd, RxCmds mid-packet, end by RxCmd or by DIR falling, back-to-back "
         "episodes), while the UTMI side transmits and the control inputs change at arbitrary moments (register "
         "writes pending/in flight during RxCmds); a share of cases leaves LegalUlpiPhy on purpose (only the RxCmd "
-        "status claim is monitored there); (dec) the real ULPIRxEventDecoder alone with a free "
+        "status claim is monitored there); (utmi, has_rst) the same on a bus record that HAS a `rst` member, where the "
+        "translator holds back its own bus activity for the first 60000 cycles after reset (phy_ready) while the PHY "
+        "sends RxCmds and packets from the first cycles on: two of three cases lie wholly inside that start-up window, "
+        "in the third the start-up timer is preloaded so that the window ends in mid-case (tags rst-startup-window, "
+        "rst-startup-ends-midcase); same monitor, the receive claims do not depend on the start-up delay; (dec) the real ULPIRxEventDecoder alone with a free "
         "register_operation_in_progress input.  The Lean driver evaluates LegalUlpiPhy and the PHY-side account "
         "on every stimulus and the result is compared with the Python generator's own account")
 ASSUMPTIONS = [
@@ -39,11 +43,15 @@ EXTRA = ["phy_bus", "phy_r04", "phy_r0A", "phy_other", "phy_writes", "spec_act",
 
 def gen_cases(tier, rng):
     n_utmi, n_dec = {"quick": (110, 40), "widen": (400, 150)}.get(tier, (400, 150))
+    n_rst = {"quick": 24}.get(tier, 80)
     out = []
     for k in range(n_utmi):
         out.append({"kind": "utmi", "seed": rng.u64(), "k": k})
     for k in range(n_dec):
         out.append({"kind": "dec", "seed": rng.u64(), "k": k})
+    # appended after the older cases so that their seeds do not move
+    for k in range(n_rst):
+        out.append({"kind": "utmi", "seed": rng.u64(), "k": k, "has_rst": 1})
     return out
 
 
@@ -64,7 +72,17 @@ def run_utmi(desc):
     rng = Rng(desc["seed"])
     k = desc.get("k", 0)
     n = desc.get("cycles", 600)
-    dut, ins, outs = U.make_translator(False)
+    # `has_rst`: the bus record has a `rst` member, so the translator keeps its own link-side activity off the bus
+    # for the first 60000 cycles after reset (phy_ready); the PHY talks from the first cycle on.  Two of three such
+    # cases start at reset and stay inside that window, the third has the start-up timer preloaded so that the
+    # window ends in mid-case.  The receive claims are judged exactly as without `rst`.
+    has_rst = bool(desc.get("has_rst", False))
+    dut, ins, outs = U.make_translator(has_rst)
+    cfg, preload = [0, 0, 0], None
+    if has_rst:
+        pre = U.CYCLES_1_MS - rng.range(40, max(41, n - 40)) if k % 3 == 2 else 0
+        cfg = [0, 1, pre]
+        preload = ("startup_counter", pre) if pre else None
     agent = None
     if not desc.get("stimulus"):
         p = {"rx_rate": rng.choice([30, 80, 200, 500]), "rx_max_items": rng.choice([4, 14, 40]),
@@ -72,11 +90,14 @@ def run_utmi(desc):
              "tx_rate": rng.choice([0, 20, 100]), "abort_rate": rng.choice([0, 10, 40]),
              "nxt_delay": rng.choice([0, 2, 6]), "illegal_rx": k % 6 == 5}
         agent = U.Agent(rng, p, dict(U.DEFAULT_CTRL) if k % 2 else U.random_ctrl(rng))
-    rows_in, rows_out = U.run_reactive(dut, ins, outs, n, agent=agent, stimulus=desc.get("stimulus"))
+    rows_in, rows_out = U.run_reactive(dut, ins, outs, n, agent=agent, stimulus=desc.get("stimulus"),
+                                       preload=preload)
     tags = set(agent.tags) if agent else set()
+    if has_rst:
+        tags.add("rst-startup-window" if not cfg[2] else "rst-startup-ends-midcase")
     fails, extra = monitor_rx(rows_in, rows_out, tags)
     outs_cmp = [list(o) + [None] * 5 + e for o, e in zip(rows_out, extra)]
-    return Case([0, 0, 0], rows_in, outs_cmp, fails, sorted(tags), desc, U.UTMI_IN, U.UTMI_OUT + EXTRA)
+    return Case(cfg, rows_in, outs_cmp, fails, sorted(tags), desc, U.UTMI_IN, U.UTMI_OUT + EXTRA)
 
 
 def monitor_rx(rows_in, rows_out, tags):
